@@ -155,7 +155,30 @@ def chk_lows(case):
     return []
 
 
-CASES = {"point": chk_point, "tuple": chk_tuple, "lows": chk_lows}
+def chk_badkey(case):
+    """a buffer that is NOT a valid public key (off the curve / x without a point), presented with EVERY (r, s) in [1, n-1]^2 on the
+    scaled-down curve: sig_verify must accept none of them and is_point must say False"""
+    import bits
+    import bits.utils as bu
+    C = _curve(case)
+    pk, msg = bytes.fromhex(case["pk"]), bytes.fromhex(case["msg"])
+    assert sec1_strict(C, pk) is None
+    out = []
+    ip = call(bu.is_point, pk)
+    if ip != ("ok", False):
+        out.append(("C02/tuple/invalid-accepted/pubkey/is_point", f"is_point({pk.hex()}) = {ip} for a buffer that is not a curve point ({case.get('what', '')})"))
+    acc_ = []
+    for r in range(1, C.n):
+        for s_ in range(1, C.n):
+            if call(bits.sig_verify, D.encode(r, s_) + b"\x01", pk, msg) == ("ok", "OK"):
+                acc_.append((r, s_))
+    if acc_:
+        out.append(("C02/tuple/invalid-accepted/pubkey/off-curve", f"sig_verify accepted {len(acc_)} of {(C.n - 1) ** 2} signatures (first r,s = {acc_[0]}) under "
+                    f"the invalid public key {pk.hex()} ({case.get('what', '')})"))
+    return out
+
+
+CASES = {"point": chk_point, "tuple": chk_tuple, "lows": chk_lows, "badkey": chk_badkey}
 
 
 def _concur_setup(case):
@@ -290,6 +313,13 @@ def seq_ops(job):
     ops.append(("tuple", {"curve": cv, "sig": sig_m2, "pk": cpk3.hex(), "msg": m2.hex(), "what": "valid; the message itself ends with the sighash suffix"}))
     ops.append(("tuple", {"curve": cv, "sig": sig3, "pk": cpk3.hex(), "msg": m2.hex(), "what": "signature over m presented for m || suffix (must be rejected)"}))
     ops.append(("tuple", {"curve": cv, "sig": sig3, "pk": cpk3.hex(), "msg": m2.hex(), "preimage": True, "what": "m || suffix given as the pre-image of the signature over m (valid)"}))
+    # buffers that are not public keys at all, each with every signature of the scaled-down group (twice in a row in the depth-2
+    # sequences: a decoder that remembers a key before validating it accepts the second presentation)
+    xs_on = {P[0] for P in C.all_points()}
+    x_off = next(x for x in range(1, C.p) if x not in xs_on)
+    ops.append(("badkey", {"curve": cv, "pk": (b"\x04" + P3[0].to_bytes(32, "big") + next(v for v in range(1, C.p) if v not in (P3[1], C.p - P3[1])).to_bytes(32, "big")).hex(), "msg": msg.hex(), "what": "04 | x | wrong y"}))
+    ops.append(("badkey", {"curve": cv, "pk": (b"\x02" + x_off.to_bytes(32, "big")).hex(), "msg": msg.hex(), "what": "02 | x without a point"}))
+    ops.append(("badkey", {"curve": cv, "pk": (b"\x04" + bytes(32) + (1).to_bytes(32, "big")).hex(), "msg": msg.hex(), "what": "04 | 0 | 1"}))
     return ops
 
 
@@ -377,7 +407,7 @@ def run_job(job):
         from vf.runner import run_concur_job
         ops = seq_ops(dict(job, shard=[0, 1]))
         scens = [{"threads": [ops[i] for i in sc[0]], "warm": [ops[i] for i in sc[1]], "post": [ops[i] for i in (sc[2] if len(sc) > 2 else ())]} for sc in CONCUR_SCEN]
-        return run_concur_job(job, scens, run_case, PROPERTY, CONCUR_FILES)
+        return run_concur_job(job, scens, run_case, PROPERTY, CONCUR_FILES, alphabet=ops)
     if job["part"] == "histconcur":
         from vf.runner import run_histconcur_job
         return run_histconcur_job(job, hist_ops(job), run_case, PROPERTY, CONCUR_FILES)
